@@ -9,8 +9,8 @@ import "encoding/json"
 // the second world: same locations as the first, other content
 func vWorldOther() *vWorld {
 	w := &vWorld{root: vURoot, docs: map[string]string{}}
-	w.docs[vURoot] = `{"swagger":"2.0","info":{"title":"t2","version":"2"},"paths":{},"definitions":{"A":{"description":"other-a","properties":{"x":{"$ref":"sub/a.json#/definitions/C%20d"}}},"B":{"description":"other-b"}}}`
-	w.docs[vUSub] = `{"definitions":{"C d":{"description":"other-c","items":{"$ref":"../../x/c.json#/definitions/D"}}}}`
+	w.docs[vURoot] = `{"swagger":"2.0","info":{"title":"t2","version":"2"},"paths":{},"definitions":{"A":{"description":"other-a","properties":{"x":{"$ref":"` + vSpell(vURoot, vUSub, "/definitions/C%20d", 1) + `"}}},"B":{"description":"other-b"}}}`
+	w.docs[vUSub] = `{"definitions":{"C d":{"description":"other-c","items":{"$ref":"` + vSpell(vUSub, vUFar, "/definitions/D", 1) + `"}}}}`
 	w.docs[vUFar] = `{"definitions":{"D":{"description":"other-d"}}}`
 	return w
 }
@@ -45,8 +45,18 @@ func vCall(kind int, w *vWorld) vCallResult {
 		err := ExpandSchema(&s, root, nil)
 		res.err = err != nil
 		res.out, _ = json.Marshal(s)
+	case 4: // options without a base location
+		opts = &ExpandOptions{PathLoader: w.loader}
+		keep = *opts
+		root, ok := w.decodeRoot()
+		if !ok {
+			return res
+		}
+		err := ExpandSpec(root, opts)
+		res.err = err != nil
+		res.out, _ = json.Marshal(root)
 	case 2:
-		r := MustCreateRef("sub/a.json#/definitions/C%20d")
+		r := MustCreateRef(vSpell(vURoot, vUSub, "/definitions/C%20d", 1))
 		s, err := ResolveRefWithBase(nil, &r, opts)
 		res.err = err != nil
 		if err == nil {
@@ -81,13 +91,15 @@ func vSameResult(a, b vCallResult) bool {
 }
 
 func vh_C16_history() {
-	w1 := vWorldSmall()
+	set := vChoose(2, "urlset")
+	vUseURLSet(set)
+	w1 := vWorldSmallIn(set)
 	w2 := vWorldOther()
-	k2 := vChoose(4, "call2")
+	k2 := vChoose(5, "call2")
 	ref := vCall(k2, w2) // the reference: this call made first, from pristine package state
 	n := 1 + vChoose(vParam("history", 2), "history_len")
 	for i := 0; i < n; i++ {
-		_ = vCall(vChoose(4, "call1"), w1)
+		_ = vCall(vChoose(5, "call1"), w1)
 	}
 	got := vCall(k2, w2)
 	vAssert(vSameResult(ref, got), "a call gives another result (or loads other documents) after earlier calls than when made first")
@@ -109,6 +121,19 @@ func vh_C16_metaschemas() {
 	_ = json.Unmarshal([]byte(`{"properties":{"i":{"$ref":"http://swagger.io/v2/schema.json#/definitions/info"}}}`), &s)
 	_ = ExpandSchemaWithBasePath(&s, nil, &ExpandOptions{RelativeBase: w.root, PathLoader: w.loader})
 	_ = vCall(vChoose(4, "call"), w)
+	// expanding a schema that is the whole draft-04 meta-schema must not rewrite the built-in copy
+	d4 := MustCreateRef("http://json-schema.org/draft-04/schema#/properties/maxLength")
+	m0, e0 := ResolveRefWithBase(nil, &d4, &ExpandOptions{PathLoader: w.loader})
+	var whole Schema
+	_ = json.Unmarshal([]byte(`{"$ref":"http://json-schema.org/draft-04/schema"}`), &whole)
+	_ = ExpandSchemaWithBasePath(&whole, nil, &ExpandOptions{RelativeBase: w.root, PathLoader: w.loader})
+	m1, e1 := ResolveRefWithBase(nil, &d4, &ExpandOptions{PathLoader: w.loader})
+	vAssert((e0 == nil) == (e1 == nil), "the built-in draft-04 meta-schema stops resolving after it was expanded")
+	if e0 == nil && e1 == nil {
+		x0, _ := json.Marshal(m0)
+		x1, _ := json.Marshal(m1)
+		vAssert(vJSONBytesEq(x0, x1), "expanding the built-in draft-04 meta-schema rewrote the built-in copy")
+	}
 	s1, err1 := ResolveRefWithBase(nil, &r, &ExpandOptions{PathLoader: w.loader})
 	vAssert(err1 == nil, "the built-in meta-schema is no longer resolvable after other calls")
 	if err1 == nil {
